@@ -245,6 +245,7 @@ def agent_cases(max_contacts):
             for action in ('shutdown', 'stop'):
                 yield {'kind': 'agent', 'contacts': [list(c) for c in combo], 'action': action}
             if count == 1:
+                yield {'kind': 'agent', 'contacts': [list(c) for c in combo] + [[aw.PEER_AHEAD, False]], 'action': 'shutdown'}
                 yield {'kind': 'agent', 'contacts': [list(c) for c in combo], 'action': 'shutdown', 'late_accept': True}
                 yield {'kind': 'agent', 'contacts': [list(c) for c in combo], 'action': 'shutdown', 'late_connect': True}
             if count <= 2:
@@ -311,6 +312,13 @@ def execute_agent(case):
                              % (con.index, con.state, len(terms), desc))
             elif len(terms) > 1:
                 out.fail('shutdown-sess-term-count', 'contact %d (%s) wrote %d SESS_TERM (%s)' % (con.index, con.state, len(terms), desc))
+            if con.state == aw.PEER_AHEAD:
+                # the peer's transfer was under way when shutdown() was called (its first segment already written): it completes
+                fin = [e['args'] for e in dbus_signals(con.hdl, 'recv_bundle_finished')]
+                if not any(str(a[0]) == '77' and a[2] == 'success' for a in fin):
+                    out.fail('shutdown-aborts-peer-transfer', 'contact %d: the peer had started a transfer (SESS_INIT and its first segment on '
+                             'their way) when shutdown() was called; it never completed: receive signals %s, state at shutdown %s (%s)'
+                             % (con.index, fin, 'session-negotiating', desc))
             if con.state == 'transfer' and not hasattr(con.own_id, 'exc') and con.index not in case.get('hang', ()):
                 data = b''.join(bytes.fromhex(m['data']) for m in msgs if m['t'] == 'XFER_SEGMENT' and m['id'] == int(con.own_id))
                 fin = [e for e in dbus_signals(con.hdl, 'send_bundle_finished') if e['args'][0] == str(con.own_id)]
